@@ -119,6 +119,9 @@ func (in *instance) apply(o flushOp, iscale float64, delta float64) realObs {
 	case "act":
 		_, r.serr = in.std.Activate()
 		_, r.ferr = in.fast.Relax(2, 0)
+	case "flush":
+		_, r.serr = in.std.Flush()
+		_, r.ferr = in.fast.Flush()
 	default:
 		panic("unknown op " + o.Op)
 	}
